@@ -215,7 +215,7 @@ def run_tests(m):
     _apply(d, m)
     try:
         env = dict(os.environ, PYTHONPATH=os.path.join(d, "src"), PYTHONDONTWRITEBYTECODE="1", NO_COLOR="1")
-        r = subprocess.run([PY, "-m", "pytest", "-q", "-p", "no:cacheprovider", "--timeout=300", "--continue-on-collection-errors", "-q"],
+        r = subprocess.run([PY, "-m", "pytest", "-q", "-p", "no:cacheprovider", "--timeout=300", "--continue-on-collection-errors"],
                            cwd=d, env=env, capture_output=True, text=True, timeout=1500)
         tail = r.stdout.strip().splitlines()[-1] if r.stdout.strip() else ""
     except subprocess.TimeoutExpired:
